@@ -11,7 +11,7 @@ from typing import cast
 import torch
 from typing_extensions import Self, Unpack
 
-from mrpro.operators.LinearOperator import LinearOperator, LinearOperatorSum
+from mrpro.operators.LinearOperator import LinearOperator
 from mrpro.operators.Operator import Operator
 from mrpro.operators.ZeroOp import ZeroOp
 
@@ -210,7 +210,8 @@ class LinearOperatorMatrix(Operator[Unpack[tuple[torch.Tensor, ...]], tuple[torc
                 new_row = []
                 for other_col in zip(*other._operators, strict=True):
                     elements = [s @ o for s, o in zip(row, other_col, strict=True)]
-                    new_row.append(LinearOperatorSum(*elements))
+                    # sum with the operators' own addition: it knows that ZeroOp is the neutral element
+                    new_row.append(reduce(operator.add, elements))
                 new_operators.append(new_row)
             return self.__class__(new_operators)
         return NotImplemented  # type: ignore[unreachable]
